@@ -593,6 +593,10 @@ def col2im_fast(a:np.ndarray, output_shape, kernel_size, dilation, stride, paddi
         
     lH, lW = get_conv2d_output_size(output_shape, kernel_size, dilation, stride, padding)
     
+    if lH < 1 or lW < 1:
+        raise ValueError(f"No sliding window of size {tuple(kernel_size)} fits in the output shape {output_shape} "
+                         + f"(dilation={dilation}, stride={stride}, padding={tuple(padding)})")
+    
     if mode == 'col2im':
         windows = a.T.reshape(lH, lW, N, C, kernel_size[0], kernel_size[1])
     elif mode == 'fold':
